@@ -43,7 +43,7 @@ fn c15_greeting_layout() {
     let methods = [pick(a), pick(b)];
     let mut io = ScriptedIo::<1, 16>::new([0], 0, 1);
     let r = {
-        let mut fut = Box::pin(io.write_selection_message(&methods));
+        let mut fut = io.write_selection_message(&methods);
         let r = done(poll_n(&mut fut, 2));
         std::mem::forget(fut);
         r
@@ -59,7 +59,7 @@ fn selection<const SEG: usize, const LEN: usize>() {
     let script: [u8; 2] = kani::any();
     let mut io = ScriptedIo::<2, 4>::new(script, LEN, SEG);
     let r = {
-        let mut fut = Box::pin(io.read_selection_response());
+        let mut fut = io.read_selection_response();
         let r = done(poll_n(&mut fut, 2));
         std::mem::forget(fut);
         r
@@ -109,7 +109,7 @@ fn userpass<const U: usize, const P: usize, const NW: usize>() {
     let auth = std::mem::ManuallyDrop::new(Authentication::UsernamePassword(Cow::Borrowed(user), Cow::Borrowed(pass)));
     let mut io = ScriptedIo::<1, NW>::new([0], 0, 1);
     let r = {
-        let mut fut = Box::pin(io.write_authentication_message(&auth));
+        let mut fut = io.write_authentication_message(&auth);
         let r = done(poll_n(&mut fut, 2));
         std::mem::forget(fut);
         r
@@ -158,7 +158,7 @@ fn c15_auth_status_reply() {
     let script: [u8; 2] = kani::any();
     let mut io = ScriptedIo::<2, 4>::new(script, 2, 2);
     let r = {
-        let mut fut = Box::pin(io.read_authentication_response());
+        let mut fut = io.read_authentication_response();
         let r = done(poll_n(&mut fut, 2));
         std::mem::forget(fut);
         r
@@ -194,7 +194,7 @@ fn request<const KIND: usize, const L: usize, const NW: usize>() {
     });
     let mut io = ScriptedIo::<1, NW>::new([0], 0, 1);
     let r = {
-        let mut fut = Box::pin(io.write_request(0x01, &dest, port));
+        let mut fut = io.write_request(0x01, &dest, port);
         let r = done(poll_n(&mut fut, 2));
         std::mem::forget(fut);
         r
@@ -242,7 +242,7 @@ fn reply_v4<const SEG: usize, const LEN: usize>() {
     kani::assume(script[3] == ADDRESS_TYPE_IP_V4 || LEN < 4);
     let mut io = ScriptedIo::<10, 4>::new(script, LEN, SEG);
     let r = {
-        let mut fut = Box::pin(io.read_reply());
+        let mut fut = io.read_reply();
         let r = done(poll_n(&mut fut, 2));
         std::mem::forget(fut);
         r
